@@ -274,7 +274,7 @@ class Lowerer:
         self._names_taken = {}
         self._td_stack = []
         self.known_extern_types = set(['x___gmp_expr_mpq_t_mpq_t', 'x___gmp_expr_mpz_t_mpz_t', 'x_std_stack___gmp_expr_mpq_t_mpq_t', 'x_std_stack___mpq_struct_P_std_vector___mpq_struct_P', 'x_std_mutex', 'x_std_atomic_bool'])
-        self._calls = {}; self.may_throw = set(); self._stmt_may_throw = False; self._opaque_fields = {}; self._fn_locals = {}
+        self._calls = {}; self.may_throw = set(); self._stmt_may_throw = False; self._opaque_fields = {}; self._fn_locals = {}; self._fn_temps = {}
         self._assign_names()
 
     # ---------------------------------------------------------------- names
@@ -1465,6 +1465,7 @@ class Lowerer:
                 toplevel += [x.get('name') for x in c.get('inner', []) if x.get('kind') == 'VarDecl' and x.get('name')]
             text += self.stmt(c, '  ')
         self._fn_locals[name] = toplevel
+        self._fn_temps[name] = [tn for ct, tn in self._tmps if '[' not in tn]
         proto = '%s %s(%s)' % (self._ret_c, name, ', '.join(params) or 'void')
         self.protos[d['id']] = proto
         head = '%s%s\n  OSMT_CONTRACT_%s\n{\n' % (self.line(d), proto, name)
@@ -1604,6 +1605,8 @@ class Lowerer:
             if fn in skip_funcs: continue
             for v in self._fn_locals.get(fn, []):
                 protos += '#define OSMT_FNLOCAL_%s_%s 1\n' % (fn, sanitize(v))
+            # the function-level temporaries of the lowering, for frame clauses of loop contracts (their number changes with harmless edits of the source)
+            if self._fn_temps.get(fn): protos += '#define OSMT_TEMPS_%s %s\n' % (fn, ', '.join(self._fn_temps[fn]))
         self.globals_emitted = ['g_' + sanitize(self.tu.qname[i]) for i in self.need_globals]
         ext = ''.join('/* stub: %s */\n' % s for s in sorted(self.extern_calls.values()))
         self.meta['stubs_called'] = sorted(self.extern_calls.values())
